@@ -484,7 +484,13 @@ fn generate_offset_labels(
             0 => (0, 0), // scripts implicitly start at time 0.  (test 'time_loop_at_beginning_of_script')
             i => (instr_offsets[i - 1], script[i - 1].time),
         };
-        offset_labels.insert(offset, generate_label_at_offset(prev, next, time_args));
+        let mut label = generate_label_at_offset(prev, next, time_args);
+        if dest_index == 0 && label.time_label != dest_time {
+            // an 'r' label before the first instruction.  There is no previous instruction to name it
+            // after, and "label_0r" belongs to the 'r' label that may follow the instruction at offset 0.
+            label.label = ident!("label_startr");
+        }
+        offset_labels.insert(offset, label);
     }
     Ok(offset_labels)
 }
